@@ -162,6 +162,13 @@ theorem C13_tables_wf (t : Ty) :
       | some s => exact ⟨s, rfl, by simpa [hdd, hs, WfSch] using h1⟩
 
 
+/-- **Every duplicate-field guard tests its own member** (re-decided on every run). In every generated struct
+deserialiser the `if x.is_some() { return Err(DeError::DuplicateField) }` of an arm tests the variable that arm
+assigns — the shape the model's `decodeField` mirrors (`slot.isAbsent`). A guard on another member's variable (which
+refuses valid documents depending on member order and lets a doubled member through) is listed by the translator
+in `deGuardMismatch` and fails this obligation. -/
+theorem C13_dup_guards : deGuardMismatch.isEmpty = true := by decide
+
 /-! ## the generic codec -/
 
 /-- **Escaping is lossless**: for every byte string `t` — all text content, including the markup characters
